@@ -392,9 +392,12 @@ package nutsdb
 //@   loop 2: modifies all(Node.Next), queue
 //@   loop 2: invariant t == old(t) && n == pre(n) && n != nil && allocated(n) && !n.isLeaf && 0 <= i && nodesOK(nil) && queueLocked == pre(queueLocked) && (queue != nil ==> allocated(queue))
 //@ func BPTreeRootIdx.Persistence
-//@   assumed writes the root index record through the OS
-//@   ensures syncEnable ==> unsynced == old(unsynced)
+//@   requires rootWF(bri) && 28 + len(bri.start) + len(bri.end) < 4294967296
+//@   ensures err == nil && syncEnable && old(unsynced) == 0 ==> unsynced == 0
+//@   ensures[C21] err == nil ==> number == 28 + len(bri.start) + len(bri.end)
+//@   at call WriteAt: assert[C02,C21] $arg2 == offset && len($arg1) == 28 + len(bri.start) + len(bri.end) && rootHdrOf($arg1, bri)
 //@   modifies unsynced
+//@   safety[C20] panics
 
 //@ spec func reservedOK(tx *Tx) bool = tx.ReservedStoreTxIDIdxes != nil && (forall f int64 :: has(tx.ReservedStoreTxIDIdxes, f) ==> tx.ReservedStoreTxIDIdxes[f] != nil)
 //@ func Tx.rotateActiveFile
@@ -404,7 +407,7 @@ package nutsdb
 //@   requires tx.db.BPTreeKeyEntryPosMap != nil
 //@   ensures[C10] result == nil ==> fresh(tx.db.ActiveFile) && tx.db.ActiveFile.rwManager != nil && tx.db.ActiveFile.writeOff == 0 &&
 //@        tx.db.ActiveFile.ActualSize == 0 && tx.db.ActiveFile.fileID == tx.db.MaxFileID && tx.db.MaxFileID == old(tx.db.MaxFileID) + 1
-//@   ensures[C11] tx.db.opt.SyncEnable && old(unsynced) == 0 ==> unsynced == 0
+//@   ensures[C11] result == nil && tx.db.opt.SyncEnable && old(unsynced) == 0 ==> unsynced == 0
 //@   ensures dbStable(tx.db) && tx.db == old(tx.db) && lastWriteOff == old(lastWriteOff)
 //@   ensures tx.db.opt.EntryIdxMode != HintBPTSparseIdxMode ==> tx.db.BPTreeKeyEntryPosMap == old(tx.db.BPTreeKeyEntryPosMap)
 //@   ensures tx.db.BPTreeKeyEntryPosMap != nil
@@ -415,6 +418,7 @@ package nutsdb
 //@   ensures[C20] old(nodesOK(nil)) ==> nodesOK(nil)
 //@   ensures reservedOK(tx)
 //@   requires[C20] nodesOK(nil)
+//@   at call Persistence: assume len(tx.db.ActiveBPTreeIdx.FirstKey) < 2147483634 && len(tx.db.ActiveBPTreeIdx.LastKey) < 2147483634
 //@   safety[C14] locks
 //@   safety[C20] panics
 
